@@ -101,12 +101,103 @@ def run(chk, repo):
     chk.ok("C20-P2", "pipelines", f"{n_checked} output leaves sourced from nullable ASCII numeric fields: conversions only on the {len(REQUIRED)} required columns")
     # ---------------------------------------------------------------- P2 (a) / P4 header transformers
     header_sentinels(chk, repo, L)
+    chk.attempt(blank_chains, chk, repo, L)
     # ---------------------------------------------------------------- P3
     try:
         for cls in ("AsciiInteger", "AsciiFloat", "PaddedString", "StripNullBytes", "AsciiComplex"):
             check_adapter(chk, "C20-P3v", repo, L.ev, (DATATYPES, cls), blank_rule="C20-P3")
     finally:
         _drop_value_rules(chk)
+
+
+def blank_chains(chk, repo, L):
+    """C20-P5: every codec chain that wraps a nullable text field in the layouts (PaddedString -> AsciiInteger / AsciiFloat ->
+    Factor -> Metadata ...) is evaluated from the inside out on the all-blank text (the adapters' _decode bodies, by the
+    checker's interpreter; each adapter instance is built by the class's own __init__): a blank field must come out as the
+    sentinel of its kind (-1, NaN, '') - possibly scaled / paired with its attrs - and must never raise"""
+    import math
+    from ..shapes import Const, DictS, Fn, Interp, Obj, ShapeError, Top, TupS, _Raise
+    chk.rule("C20-P5", "each codec chain over a nullable text field maps the all-blank field to its sentinel (NaN stays NaN through scale factors) and never raises", 10)
+    dt = repo.module(DATATYPES)
+    chains = {}
+    for key in ("leader", "volume", "signal", "processed", "image_descriptor"):
+        for lf in L.by_name(key).values():
+            if lf.kind != "field" or lf.base != "PaddedString":
+                continue
+            sig = tuple((a.get("cls"), tuple(sorted((k, repr(v)) for k, v in (a.get("attrs") or {}).items()))) for a in lf.chain)
+            chains.setdefault(sig, (lf, key))
+    I = Interp(repo)
+
+    def instance(cls_name, mod, attrs):
+        r = repo.resolve_module_name(mod, cls_name)
+        if r.kind != "class":
+            raise ShapeError(f"adapter class {cls_name} not found")
+        obj = Obj(cls_name, dict(attrs), klass=(r.mod, r.node))
+        return obj
+    n = 0
+    for sig, (lf, key) in sorted(chains.items(), key=lambda kv: repr(kv[0])):
+        width = lf.width.value() if lf.width.is_const() else 8
+        val = Const(" " * max(int(width), 1))  # what construct's PaddedString hands to the innermost adapter
+        where = f"{key}:{lf.name}"
+        desc = " <- ".join(a.get("cls") or "?" for a in lf.chain) or "PaddedString"
+        try:
+            for a in reversed(lf.chain):
+                if a.get("kind") == "Enum":
+                    val = val  # an Enum over a text falls back to the text itself for unknown codes
+                    continue
+                mod = repo.modules.get(a.get("clsmod"))
+                raw = a.get("raw_attrs") or {}
+                attrs = {}
+                for k, v in raw.items():
+                    if isinstance(v, (int, float, str, bool, type(None))):
+                        attrs[k] = Const(v)
+                    elif isinstance(v, dict):
+                        attrs[k] = DictS({kk: Const(vv) for kk, vv in v.items() if isinstance(vv, (int, float, str, bool, type(None)))})
+                obj = instance(a["cls"], mod, attrs)
+                # derived attributes set by __init__ beyond the plain ones: run __init__'s self-assignments
+                found = I.find_class_attr(obj.klass[0], obj.klass[1], "__init__")
+                if found is not None:
+                    fi = found[1].funcs.get(found[2][0])
+                    sc = I.module_scope(found[1]).child(owner=fi)
+                    sc.vars["self"] = obj
+                    for p_ in fi.positional_params[1:]:
+                        sc.vars[p_] = attrs.get(p_, Top(f"constructor argument {p_}"))
+                    if fi.node.args.kwarg is not None:
+                        sc.vars[fi.node.args.kwarg.arg] = attrs.get("attrs", DictS())
+                    for st in fi.node.body:
+                        if isinstance(st, ast.Assign) and isinstance(st.targets[0], ast.Attribute) and isinstance(st.targets[0].value, ast.Name) and st.targets[0].value.id == "self":
+                            try:
+                                I.exec_stmt(st, sc, [])
+                            except (ShapeError, _Raise):
+                                pass
+                val = I.call(I.getattr(obj, "_decode"), [val, Const(None), Const(None)], {})
+        except _Raise as e:
+            chk.fail("C20-P5", where, f"codec chain {desc}: an all-blank field raises ({e.what[:70]}) instead of decoding to its sentinel - a blank value field makes the whole file unreadable",
+                     key=f"blank-chain:{desc}:raises")
+            n += 1
+            continue
+        except ShapeError as e:
+            raise AnalysisError(f"{where}: codec chain {desc} cannot be evaluated on the blank field: {e}")
+        n += 1
+        core = val.elts[0] if isinstance(val, TupS) and val.elts else val
+        classes = [a.get("cls") for a in lf.chain]
+        if isinstance(core, Top):
+            raise AnalysisError(f"{where}: codec chain {desc} gives {core!r} on the blank field; not decided")
+        v = core.v if isinstance(core, Const) else None
+        if "AsciiFloat" in classes or "AsciiComplex" in classes:
+            ok = isinstance(v, (float, complex)) and (math.isnan(v.real) if isinstance(v, complex) else math.isnan(v))
+            want = "NaN"
+        elif "AsciiInteger" in classes:
+            ok = isinstance(v, (int, float)) and not isinstance(v, bool) and (v == -1 or ("Factor" in classes and v < 0))
+            want = "-1 (times its scale factor)"
+        else:
+            ok = v == ""
+            want = "''"
+        chk.require(ok, "C20-P5", where, f"codec chain {desc}: blank field -> {v!r} ({want})",
+                    f"codec chain {desc}: an all-blank field decodes to {v!r}, expected {want}: a missing value is indistinguishable from a real one", key=f"blank-chain:{desc}:value",
+                    sample={"chain": desc, "blank": repr(v)})
+    if n == 0:
+        raise AnalysisError("no codec chain over a text field found in the layouts")
 
 
 def _drop_value_rules(chk):
